@@ -264,7 +264,11 @@ func c04Run(c c04Case, base string) (res c04Result) {
 	lastN := 0
 	for di, d := range res.Delivered {
 		found := -1
-		for j := idx; j < len(all); j++ {
+		// equal lines (e.g. several empty ones) are told apart by the running number the line carries
+		if k := int(d.N) - 1; k >= idx && k < len(all) && all[k] == d.Content {
+			found = k
+		}
+		for j := idx; found < 0 && j < len(all); j++ {
 			if all[j] == d.Content {
 				found = j
 				break
